@@ -61,9 +61,13 @@ Definition total_len (ls : list (list N)) : nat := length (concat ls).
 Definition rest (f : rfile) : list N := skipn (rf_pos f) (rf_data f).
 Definition advance (f : rfile) (k : nat) : rfile := mkRF (rf_data f) (rf_pos f + k).
 
-(* overwrite at the position (which never lies past the end, see [ref_pre]) *)
+(* write d at the position; io.BytesIO pads with zero bytes when the position lies
+   past the end and something is written (an empty write changes nothing) *)
 Definition overwrite (data : list N) (pos : nat) (d : list N) : list N :=
-  firstn pos data ++ d ++ skipn (pos + length d) data.
+  match d with
+  | [] => data
+  | _ => firstn pos data ++ repeat 0%N (pos - length data) ++ d ++ skipn (pos + length d) data
+  end.
 
 Definition seek_target (f : rfile) (off : Z) (whence : nat) : Z :=
   match whence with
@@ -98,22 +102,25 @@ Definition ref_step (f : rfile) (op : fop) : rfile * fobs :=
   end.
 
 (* ---- which calls the property speaks about -------------------------------- *)
-(* Both: seeks to a position inside the data, 0 <= target <= len.  Text: appending
-   writes, whence 1/2 only with offset 0 (the only relative seeks io.StringIO
-   has), readline/readlines without a size.  Bytes: overwriting writes, relative
-   seeks, readline(limit >= 1) as well (more than the property asks); readline(0)
-   is left out (`if length:` treats it as "no limit"), and so is readlines(hint > 0):
-   the standard library itself differs there (BytesIO stops at total >= hint,
-   IOBase.readlines of the temporary file at total > hint). *)
+(* Text: appending writes; seeks to a position inside the data, 0 <= target <= len,
+   whence 1/2 only with offset 0 (the only relative seeks io.StringIO has);
+   readline/readlines without a size.  Bytes (more than the property asks):
+   overwriting writes, seeks to ANY position >= 0 - also past the end of the data,
+   where reads return nothing, iteration stops and a write pads with zeros -,
+   relative seeks, readline(limit >= 1), readlines(hint).  readline(0) is left
+   out (`if length:` treats it as "no limit"). *)
 Definition ref_pre (k : fkind) (f : rfile) (op : fop) : bool :=
   match op with
   | Write _ => match k with KString => Nat.eqb (rf_pos f) (length (rf_data f)) | KBytes => true end
   | ReadLine (Some n) => match k with KString => false | KBytes => negb (Nat.eqb n 0) end
-  | ReadLines (S _) => false
+  | ReadLines (S _) => match k with KString => false | KBytes => true end
   | Seek off wh =>
       (wh <=? 2) && (0 <=? seek_target f off wh)%Z &&
-      (seek_target f off wh <=? Z.of_nat (length (rf_data f)))%Z &&
-      match k with KString => Nat.eqb wh 0 || (off =? 0)%Z | KBytes => true end
+      match k with
+      | KString => (seek_target f off wh <=? Z.of_nat (length (rf_data f)))%Z &&
+                   (Nat.eqb wh 0 || (off =? 0)%Z)
+      | KBytes => true
+      end
   | _ => true
   end.
 
